@@ -21,6 +21,7 @@ class Unit:
         self.inj = None      # dict(name, pkg, args=[tdesc], out=tdesc, cleanup, err, form)
         self.tids = {}       # tdesc -> int
         self.notes = []      # planted defects
+        self.prog = None
 
     def tid(self, td):
         if td not in self.tids:
@@ -33,6 +34,18 @@ class Prog:
         self.name = name
         self.pkgs = ["liba", "libb", "app"]      # import order: later may import earlier
         self.units = []
+        # logical package -> actual directory and package name (C14 renames them)
+        self.pkgmap = {p: {"dir": p, "name": p} for p in self.pkgs}
+        self.extra_decls = []                    # extra top-level declarations of package app
+
+    def qual(self, pkg):
+        """identifier by which files of this program refer to logical package pkg"""
+        nm = self.pkgmap[pkg]["name"]
+        clash = [q for q in self.pkgs if q != pkg and self.pkgmap[q]["name"] == nm]
+        return nm if not clash else "%sX%s" % (nm, pkg)
+
+    def path(self, pkg):
+        return "%s/%s/%s" % (MOD, self.name, self.pkgmap[pkg]["dir"])
 
 
 def sname(u, i):
@@ -50,9 +63,9 @@ def gotype(u, td, frm):
         d = u.ifaces[i]
         base = d["name"]
         pkg = d["pkg"]
-        return base if pkg == frm else pkg + "." + base
+        return base if pkg == frm else u.prog.qual(pkg) + "." + base
     d = u.structs[i]
-    base = d["name"] if d["pkg"] == frm else d["pkg"] + "." + d["name"]
+    base = d["name"] if d["pkg"] == frm else u.prog.qual(d["pkg"]) + "." + d["name"]
     return {"v": "", "p": "*", "s": "[]"}[k] + base
 
 
@@ -242,6 +255,7 @@ def gen_prog(rng, name, opts):
             u = gen_unit(rng, k + 1, opts)
             if not contains_by_value_cycle(u):
                 break
+        u.prog = p
         p.units.append(u)
     return p
 
@@ -277,9 +291,9 @@ def type_string(u, td):
     k, i = td
     if k == "i":
         d = u.ifaces[i]
-        return "%s/%s.%s" % (MOD_OF[0], d["pkg"], d["name"])
+        return "%s.%s" % (u.prog.path(d["pkg"]), d["name"])
     d = u.structs[i]
-    return {"v": "", "p": "*", "s": "[]"}[k] + "%s/%s.%s" % (MOD_OF[0], d["pkg"], d["name"])
+    return {"v": "", "p": "*", "s": "[]"}[k] + "%s.%s" % (u.prog.path(d["pkg"]), d["name"])
 
 
 MOD_OF = [MOD]
@@ -326,11 +340,13 @@ def request_line(u, case, progname):
 
 # ---- materialiser --------------------------------------------------------------------------------
 
-def imports_for(pkgs_used, frm, progname, extra=()):
+def imports_for(prog, pkgs_used, frm, extra=()):
     lines = []
     for p in sorted(set(pkgs_used)):
         if p != frm:
-            lines.append('\t"%s/%s/%s"' % (MOD, progname, p))
+            q = prog.qual(p)
+            alias = "" if q == prog.pkgmap[p]["name"] else q + " "
+            lines.append('\t%s"%s"' % (alias, prog.path(p)))
     for e in extra:
         lines.append('\t"%s"' % e)
     return "import (\n" + "\n".join(lines) + "\n)\n" if lines else ""
@@ -346,6 +362,9 @@ def materialise(prog):
     for pkg in prog.pkgs:
         body, used = [], set()
         inj_body, inj_used = [], set()
+        pdir, pname = prog.pkgmap[pkg]["dir"], prog.pkgmap[pkg]["name"]
+        if pkg == "app":
+            body += list(prog.extra_decls)
 
         def T(u, td, bucket=None, frm=pkg):
             k, i = td
@@ -468,14 +487,14 @@ def materialise(prog):
                     fbody = "\t%s\n\treturn %s" % (call, ", ".join(rets))
                 inj_body.append("%sfunc %s(%s) %s {\n%s\n}" % (doc, inj["name"], ", ".join(params), rsig, fbody))
         if body:
-            files["%s/%s.go" % (pkg, pkg)] = "package %s\n\n%s\n%s\n" % (
-                pkg, imports_for(used, pkg, prog.name, ["fmt", "github.com/google/wire", MOD + "/wtrace"]),
+            files["%s/%s.go" % (pdir, pkg)] = "package %s\n\n%s\n%s\n" % (
+                pname, imports_for(prog, used, pkg, ["fmt", "github.com/google/wire", MOD + "/wtrace"]),
                 "\n\n".join(body)) + "\nvar _ = fmt.Sprint\nvar _ = wtrace.D\nvar _ wire.ProviderSet\n\n// Anchor lets drivers import this package unconditionally.\nvar Anchor = 0\n"
         if inj_body:
-            files["%s/wire.go" % pkg] = "//go:build wireinject\n// +build wireinject\n\npackage %s\n\n%s\n%s\n" % (
-                pkg, imports_for(inj_used, pkg, prog.name, ["github.com/google/wire"]), "\n\n".join(inj_body))
+            files["%s/wire.go" % pdir] = "//go:build wireinject\n// +build wireinject\n\npackage %s\n\n%s\n%s\n" % (
+                pname, imports_for(prog, inj_used, pkg, ["github.com/google/wire"]), "\n\n".join(inj_body))
         if inj_body and not body:
-            files["%s/%s.go" % (pkg, pkg)] = "package %s\n\nvar Anchor = 0\n" % pkg
+            files["%s/%s.go" % (pdir, pkg)] = "package %s\n\nvar Anchor = 0\n" % pname
     return files
 
 
@@ -561,7 +580,7 @@ def set_args(u, s, frm, T, used):
 
     def q(pkg, name):
         used.add(pkg)
-        return name if pkg == frm else pkg + "." + name
+        return name if pkg == frm else u.prog.qual(pkg) + "." + name
     entries = [("imp", k) for k in s["imports"]] + [("item", n) for n in s["items"]]
     order = s.get("order")
     if order:
@@ -601,10 +620,11 @@ def driver_main(prog):
         for d in u.ifaces:
             pk.add(d["pkg"])
     for p in sorted(pk):
-        L.append('\t"%s/%s/%s"' % (MOD, prog.name, p))
+        q = prog.qual(p)
+        L.append('\t%s"%s"' % ("" if q == prog.pkgmap[p]["name"] else q + " ", prog.path(p)))
     L += [')', '']
     for p in sorted(pk):
-        L.append("var _ = %s.Anchor" % p)
+        L.append("var _ = %s.Anchor" % prog.qual(p))
     L += ['', 'func main() {']
     for u in prog.units:
         inj = u.inj
@@ -622,7 +642,7 @@ def driver_main(prog):
                 sig_args.append("[]%s{%s, %s}" % (gotype(u, ("v", td[1]), "main"), one, two))
             else:
                 sig_args.append(go_lit(u, td, lit_id(9000 + n), lambda uu, x: gotype(uu, x, "main")))
-        fn = "%s.%s" % (inj["pkg"], inj["name"])
+        fn = "%s.%s" % (prog.qual(inj["pkg"]), inj["name"])
         # typed function variable: the generated implementation must have exactly this signature
         ptypes = [gotype(u, td, "main") for td in inj["args"]]
         res = [gotype(u, inj["out"], "main")] + (["func()"] if inj["cleanup"] else []) + (["error"] if inj["err"] else [])
